@@ -1302,15 +1302,18 @@ void read_skip_mode_params(Bitstrm *bs, FrameHeader *frame_info, int frame_is_in
     PRINT_FRAME("skip_mode_present", frame_info->skip_mode_params.skip_mode_flag);
 }
 
-void load_grain_params(EbDecHandle *dec_handle_ptr, AomFilmGrain *grain_params,
-                       int film_grain_params_ref_idx) {
+EbErrorType load_grain_params(EbDecHandle *dec_handle_ptr, AomFilmGrain *grain_params,
+                              int film_grain_params_ref_idx) {
     EbDecPicBuf *ref_buf = dec_handle_ptr->ref_frame_map[film_grain_params_ref_idx];
-    assert(ref_buf != NULL);
+    if (ref_buf == NULL)
+        return EB_Corrupt_Frame;
     *grain_params = ref_buf->film_grain_params;
+    return EB_ErrorNone;
 }
 
 // Read film grain parameters
-void read_film_grain_params(EbDecHandle *dec_handle, Bitstrm *bs, AomFilmGrain *grain_params) {
+EbErrorType read_film_grain_params(EbDecHandle *dec_handle, Bitstrm *bs,
+                                   AomFilmGrain *grain_params) {
     SeqHeader *  seq_header = &dec_handle->seq_header;
     FrameHeader *frame_info = &dec_handle->frame_header;
     int          i, num_pos_luma, num_pos_chroma;
@@ -1318,14 +1321,14 @@ void read_film_grain_params(EbDecHandle *dec_handle, Bitstrm *bs, AomFilmGrain *
     if (!seq_header->film_grain_params_present ||
         (!frame_info->show_frame && !frame_info->showable_frame)) {
         memset(grain_params, 0, sizeof(*grain_params));
-        return;
+        return EB_ErrorNone;
     }
     grain_params->apply_grain = dec_get_bits(bs, 1);
     PRINT_FRAME("apply_grain", grain_params->apply_grain);
 
     if (!grain_params->apply_grain) {
         memset(grain_params, 0, sizeof(*grain_params));
-        return;
+        return EB_ErrorNone;
     }
 
     grain_params->random_seed = dec_get_bits(bs, 16);
@@ -1339,18 +1342,20 @@ void read_film_grain_params(EbDecHandle *dec_handle, Bitstrm *bs, AomFilmGrain *
         int film_grain_params_ref_idx = dec_get_bits(bs, 3);
         PRINT_FRAME("film_grain_params_ref_idx", film_grain_params_ref_idx);
         uint16_t temp_grain_seed = grain_params->random_seed;
-        load_grain_params(dec_handle, grain_params, film_grain_params_ref_idx);
+        if (load_grain_params(dec_handle, grain_params, film_grain_params_ref_idx) != EB_ErrorNone)
+            return EB_Corrupt_Frame;
         grain_params->random_seed = temp_grain_seed;
-        return;
+        return EB_ErrorNone;
     }
     grain_params->num_y_points = dec_get_bits(bs, 4);
-    assert(grain_params->num_y_points <= 14);
+    if (grain_params->num_y_points > 14)
+        return EB_Corrupt_Frame;
     PRINT_FRAME("num_y_points", grain_params->num_y_points);
     for (i = 0; i < grain_params->num_y_points; i++) {
         grain_params->scaling_points_y[i][0] = dec_get_bits(bs, 8);
         grain_params->scaling_points_y[i][1] = dec_get_bits(bs, 8);
-        if (i > 0)
-            assert(grain_params->scaling_points_y[i][0] > grain_params->scaling_points_y[i - 1][0]);
+        if (i > 0 && grain_params->scaling_points_y[i][0] <= grain_params->scaling_points_y[i - 1][0])
+            return EB_Corrupt_Frame; /* x coordinates must increase (the scaling LUT divides by the difference) */
         PRINT_FRAME("scaling_points_y[i][0]", grain_params->scaling_points_y[i][0]);
         PRINT_FRAME("scaling_points_y[i][1]", grain_params->scaling_points_y[i][1]);
     }
@@ -1368,27 +1373,29 @@ void read_film_grain_params(EbDecHandle *dec_handle, Bitstrm *bs, AomFilmGrain *
     } else {
         grain_params->num_cb_points = dec_get_bits(bs, 4);
         PRINT_FRAME("num_cb_points", grain_params->num_cb_points);
-        assert(grain_params->num_cb_points <= 10);
+        if (grain_params->num_cb_points > 10)
+            return EB_Corrupt_Frame;
         for (i = 0; i < grain_params->num_cb_points; i++) {
             grain_params->scaling_points_cb[i][0] = dec_get_bits(bs, 8);
             grain_params->scaling_points_cb[i][1] = dec_get_bits(bs, 8);
             PRINT_FRAME("scaling_points_cb[i][0]", grain_params->scaling_points_cb[i][0]);
             PRINT_FRAME("scaling_points_cb[i][1]", grain_params->scaling_points_cb[i][1]);
-            if (i > 0)
-                assert(grain_params->scaling_points_cb[i][0] >
-                       grain_params->scaling_points_cb[i - 1][0]);
+            if (i > 0 &&
+                grain_params->scaling_points_cb[i][0] <= grain_params->scaling_points_cb[i - 1][0])
+                return EB_Corrupt_Frame;
         }
         grain_params->num_cr_points = dec_get_bits(bs, 4);
         PRINT_FRAME("num_cr_points", grain_params->num_cr_points);
-        assert(grain_params->num_cr_points <= 14);
+        if (grain_params->num_cr_points > 10)
+            return EB_Corrupt_Frame;
         for (i = 0; i < grain_params->num_cr_points; i++) {
             grain_params->scaling_points_cr[i][0] = dec_get_bits(bs, 8);
             grain_params->scaling_points_cr[i][1] = dec_get_bits(bs, 8);
             PRINT_FRAME("scaling_points_cr[i][0]", grain_params->scaling_points_cr[i][0]);
             PRINT_FRAME("scaling_points_cr[i][1]", grain_params->scaling_points_cr[i][1]);
-            if (i > 0)
-                assert(grain_params->scaling_points_cr[i][0] >
-                       grain_params->scaling_points_cr[i - 1][0]);
+            if (i > 0 &&
+                grain_params->scaling_points_cr[i][0] <= grain_params->scaling_points_cr[i - 1][0])
+                return EB_Corrupt_Frame;
         }
     }
 
@@ -1396,7 +1403,7 @@ void read_film_grain_params(EbDecHandle *dec_handle, Bitstrm *bs, AomFilmGrain *
         (seq_header->color_config.subsampling_y == 1) &&
         (((grain_params->num_cb_points == 0) && (grain_params->num_cr_points != 0)) ||
          ((grain_params->num_cb_points != 0) && (grain_params->num_cr_points == 0))))
-        return; // EB_DecUnsupportedBitstream;
+        return EB_DecUnsupportedBitstream;
 
     grain_params->scaling_shift = dec_get_bits(bs, 2) + 8;
     grain_params->ar_coeff_lag  = dec_get_bits(bs, 2);
@@ -1448,6 +1455,7 @@ void read_film_grain_params(EbDecHandle *dec_handle, Bitstrm *bs, AomFilmGrain *
     grain_params->clip_to_restricted_range = dec_get_bits(bs, 1);
     PRINT_FRAME("overlap_flag", grain_params->overlap_flag);
     PRINT_FRAME("clip_to_restricted_range", grain_params->clip_to_restricted_range);
+    return EB_ErrorNone;
 }
 
 int seg_feature_active_idx(SegmentationParams *seg_params, int segment_id,
@@ -1780,7 +1788,7 @@ EbErrorType read_uncompressed_header(Bitstrm *bs, EbDecHandle *dec_handle_ptr, O
             }
 
             if (seq_header->film_grain_params_present)
-                load_grain_params(
+                (void)load_grain_params(
                     dec_handle_ptr, &frame_info->film_grain_params, frame_to_show_map_idx);
 
             generate_next_ref_frame_map(dec_handle_ptr);
@@ -2170,7 +2178,8 @@ EbErrorType read_uncompressed_header(Bitstrm *bs, EbDecHandle *dec_handle_ptr, O
     PRINT_FRAME("reduced_tx_set", frame_info->reduced_tx_set);
     read_global_motion_params(bs, dec_handle_ptr, frame_info, frame_is_intra);
 
-    read_film_grain_params(dec_handle_ptr, bs, &frame_info->film_grain_params);
+    if (read_film_grain_params(dec_handle_ptr, bs, &frame_info->film_grain_params) != EB_ErrorNone)
+        return EB_Corrupt_Frame;
 
     dec_handle_ptr->cur_pic_buf[0]->film_grain_params =
         dec_handle_ptr->frame_header.film_grain_params;
